@@ -70,6 +70,19 @@ func genC01(seed uint64, tier string) Scenario {
 		}
 		s.Clients = append(s.Clients, cs)
 	}
+	// a service with an idle timeout: an anchor connection is open from the start
+	// over several expiries of the accept deadline; the others connect in between
+	// (the service has to be serving: a connection is open) and are served as ever
+	if !s.Shutdown && g.Pct(8) {
+		tUs := (1 + g.IntN(200)) * 1000
+		s.Service.TimeoutNs = int64(tUs) * 1000
+		for i := range s.Clients {
+			s.Clients[i].StartUs = 1 + g.IntN(3*tUs)
+		}
+		cid++
+		s.Clients = append(s.Clients, ClientSpec{Frames: []FrameSpec{{Cid: cid, Text: callFrame("org.varlink.service.GetInfo", "", false, false, false, g)}},
+			End: "close", HoldUs: 4*tUs + 400000})
+	}
 	// one handler blocks until the world is quiet: the other connections must not care
 	if len(s.Clients) >= 2 && g.Pct(10) {
 		cids := make([]int, 0, len(s.Scripts))
